@@ -147,6 +147,9 @@ def parse_function(fcn_str: str) -> tuple:
     fcn_ast = ast.fix_missing_locations(fcn_ast)
     dep_list = []
     for node in ast.walk(fcn_ast):
+        if isinstance(node, ast.Name):
+            # Python normalizes identifiers, so a double underscore can be spelled with characters that the check on the string above does not see
+            assert "__" not in node.id.replace("___", ":"), "Cannot use double underscores in functions"
         if isinstance(node, ast.Name) and node.id not in supported_functions:
             dep_list.append(node.id)
         elif isinstance(node, ast.Call):
